@@ -921,6 +921,8 @@ def finding_key(kind, sp):
         return 'nuclear-norm-exp-inf-proximal'
     if kind == 'nuclear-ball':
         return 'nuclear-ball-proximal-outside'
+    if kind == 'wps-groupball-inf':
+        return 'group-ball-inf-weighted-product-space'
     return None
 
 
@@ -947,6 +949,14 @@ def _extra_functionals(rng, tier):
     out.append(('nuclear-ball', 'S.IndicatorNuclearNormUnitBall(%s, np.inf, 2)' % nb, Sp(nb), False))
     out.append(('huber', 'S.Huber(odl.ProductSpace(%s, 2), %r)' % (base, rng.choice([0.5, 1.0])),
                 Sp('odl.ProductSpace(%s, 2)' % base), False))
+    # power spaces with component weights: consistent for the 2-norm group functionals, not for exponent inf
+    wps = 'odl.ProductSpace(odl.rn(%d), 3, weighting=%r)' % (n, [1.0, 2.0, 0.5])
+    out.append(('wps-groupl1-2', 'S.GroupL1Norm(%s, 2)' % wps, Sp(wps), False))
+    out.append(('wps-groupl1-1', 'S.GroupL1Norm(%s, 1)' % wps, Sp(wps), False))
+    out.append(('wps-groupball-2', 'S.IndicatorGroupL1UnitBall(%s, 2)' % wps, Sp(wps), False))
+    out.append(('wps-groupball-inf', 'S.IndicatorGroupL1UnitBall(%s, np.inf)' % wps, Sp(wps), False))
+    out.append(('wps-l2', 'S.L2Norm(%s)' % wps, Sp(wps), False))
+    out.append(('wps-ball2', 'S.IndicatorLpUnitBall(%s, 2)' % wps, Sp(wps), False))
     return out
 
 
@@ -1198,7 +1208,7 @@ LEVEL_TEXT = ('Proof: for the value-level model of proximal_operators.py / defau
 LEVEL_NOTE = ('The model is hand-written and tied to /repo on every run by an in-Coq correspondence (f(x) and f.proximal(s)(x) '
               'on random trees built through the Functional API, plus the factories with lam/g/step kinds/rules), tolerance '
               '1e-9; theorems are about exact real arithmetic (the 1e-14 safety factors are modelled as 1; rounding is out '
-              'of scope). 12 recorded findings (findings/C07.json) are outside the proved domain and are reported as '
+              'of scope). 13 recorded findings (findings/C07.json) are outside the proved domain and are reported as '
               'KNOWN-FINDING by probes that evaluate the optimality inequality on the real code. Axioms: classical reals + '
               'functional extensionality as printed.')
 TECHNIQUE = ('Coq: variational-inequality invariant proved by structural induction over functional trees and list induction '
